@@ -132,3 +132,6 @@ HARNESSES = [
             params={"quick": [{"nph": 1, "nel": 1, "ncls": 2, "hist": 2}, {"nph": 2, "nel": 1, "ncls": 2, "hist": 1}],
                     "thorough": [{"nph": 2, "nel": 2, "ncls": 2, "hist": 3}, {"nph": 1, "nel": 2, "ncls": 3, "hist": 2}]}),
 ]
+
+from harness.c01_extra import EXTRA as _EXTRA
+HARNESSES = HARNESSES + _EXTRA
